@@ -64,3 +64,17 @@ mut('C06', 'AddCashFlow-overwrites-definition', [('sector.py', "            if r
 ben('C06', 'AddTerm-rename', [('equation.py', "        for other in self.TermList:\n            if term.Term == other.Term and not other.IsBlob:\n                # Already exists; just add the constants together.\n                other.Constant += term.Constant\n                return",
      "        for other in self.TermList:\n            if other.IsBlob:\n                continue\n            if other.Term == term.Term:\n                other.Constant = other.Constant + term.Constant\n                return")])
 ben('C06', 'AddCashFlow-log', [('sector.py', "        term = term.strip()\n        if len(term) == 0:\n            return\n        term_obj = Term(term)", "        term = term.strip()\n        if term == '':\n            return\n        term_obj = Term(term)")])
+
+# ---- C12 ---------------------------------------------------------------------------------------------
+mut('C12', 'str-sign-swapped', [('equation.py', "        if self.Constant == 1.0:\n            lead = '+'\n        elif self.Constant == -1:\n            lead = '-'", "        if self.Constant == 1.0:\n            lead = '-'\n        elif self.Constant == -1:\n            lead = '+'")], 'value')
+mut('C12', 'str-drops-constant', [('equation.py', "            lead = '+' + str(self.Constant) + '*'", "            lead = '+'")], 'value')
+mut('C12', 'str-zero-kept', [('equation.py', "        if self.Constant == 0.0:\n            return ''", "        if self.Constant == 0.0:\n            return '+' + self.Term")], ['value', 'zero_vanishes'])
+mut('C12', 'rhs-keeps-leading-plus', [('equation.py', "        if out.startswith('+'):\n            out = out[1:]", "        if out.startswith('+') and len(self.TermList) > 3:\n            out = out[1:]")], 'rendering_in_list_order')
+mut('C12', 'rhs-empty-sum-empty-text', [('equation.py', "        if out == '':\n            out = '0.0'", "        if out == '':\n            out = ''")], 'never_empty')
+mut('C12', 'rhs-reversed', [('equation.py', "        out = [str(s) for s in self.TermList]\n        out = ''.join(out)", "        out = [str(s) for s in self.TermList]\n        out.reverse()\n        out = ''.join(out)")], 'rendering_in_list_order')
+mut('C12', 'rhs-strips-all-plus', [('equation.py', "        if out.startswith('+'):\n            out = out[1:]", "        if out.startswith('+'):\n            out = out.replace('+', '')")], ['rendering_in_list_order', 'value_is_the_signed_sum'])
+mut('C12', 'join-rewrites-argument', [('utils.py', "    terms = list(terms)\n    for i in range(0, len(terms)):", "    for i in range(0, len(terms)):")], ['argument_untouched', 'caller_list_unchanged', 'working_copy'])
+mut('C12', 'join-strips-interior-plus', [('utils.py', "        terms[0] = terms[0][1:]", "        terms[0] = terms[0].replace('+', '')")], 'value_is_the_sum_of_the_pieces')
+mut('C12', 'join-minus-becomes-plus', [('utils.py', "        if not term[0] in ('+', '-'):\n            term = '+' + term", "        if not term[0] in ('+',):\n            term = '+' + term.lstrip('-')")], ['normalised_so_far', 'value_is_the_sum_of_the_pieces'])
+ben('C12', 'rhs-generator-join', [('equation.py', "        out = [str(s) for s in self.TermList]\n        out = ''.join(out)", "        pieces = [str(s) for s in self.TermList]\n        out = ''.join(pieces)")])
+ben('C12', 'str-reordered-tests', [('equation.py', "        if self.Constant == 1.0:\n            lead = '+'\n        elif self.Constant == -1:\n            lead = '-'", "        if self.Constant == -1:\n            lead = '-'\n        elif self.Constant == 1.0:\n            lead = '+'")])
